@@ -3,9 +3,9 @@ from __future__ import annotations
 
 import ast
 
-from sa.astx import call_attr, call_name, src, walk_local
+from sa.astx import call_attr, call_name, dotted, src, walk_local
 from sa.selftest import Mutant, Silent
-from sa.source import methods
+from sa.source import AnalysisError, methods, mro_lookup
 from sa.props._lib_j import body_always_entered, run_sections, asserted_eq, asserted_in, edge_asserts, local_defs, node_calls, normal_exits, params
 
 PROPERTY = "C54"
@@ -21,11 +21,15 @@ EXPLANATION = (
     "construction, preauthChild/parent/sibling/realpath, os.path.join or raw parameter reaches a sink - self.filesystemRoot is "
     "used only by _path (and read-only by segmentsFrom), _path is filesystemRoot.descendant(segments) and descendant applies "
     "child() once per segment (C26 decides child); (3) toSegments appends only the loop's own separator-free segment, never "
-    "'..' / '.' / '', pops only a non-empty stack, and returns a list that started as [] or a copy of cwd. Not decided: "
-    "symbolic links (excluded by the statement), FilePath.child itself (C26), the realm's choice of root."
+    "'..' / '.' / '', pops only a non-empty stack, and returns a list that started as [] or a copy of cwd; "
+    "(4) footprints: every os/shutil primitive and FilePath method applied to a confined path is classified by the paths it can touch relative to its argument; "
+    "only {arg}, {src,dst}, {arg+descendants} and makedirs' bounded ancestor creation are accepted, upward ones (os.removedirs, os.renames, setContent's sibling, "
+    "a mutation through parent()/dirname of a confined path) are violations, an unclassified primitive is an analysis error of that section, and the FilePath "
+    "methods used are scanned for upward primitives. "
+    "Not decided: symbolic links (excluded by the statement), FilePath.child itself (C26), the realm's choice of root. "
     "Every anchor function is also checked to be entered on every call (no memoising/wrapping decorator, duplicate definition or rebinding). "
 )
-ASSUMPTIONS = ["FilePath.child rejects anything that is not a direct child (property C26)", "IFTPShell implementations other than the two in ftp.py are out of scope"]
+ASSUMPTIONS = ["the shell root exists while the shell is in use (makedirs creates missing ancestors only below it)", "FilePath.child rejects anything that is not a direct child (property C26)", "IFTPShell implementations other than the two in ftp.py are out of scope"]
 
 FP_METHODS = {"open", "listdir", "remove", "makedirs", "createDirectory", "isdir", "isfile", "exists", "islink", "restat", "getsize", "child", "children",
               "walk", "moveTo", "copyTo", "setContent", "getContent", "touch", "chmod", "getPermissions", "getModificationTime", "getNumberOfHardLinks",
@@ -248,6 +252,87 @@ def _s_path_only(ctx, S):
 
 
 
+def _callee(c, defs):
+    """Dotted callee of a call; a local alias (``rm = os.rmdir``) is looked through."""
+    cn = call_name(c) or ""
+    if isinstance(c.func, ast.Name) and c.func.id in defs:
+        ds = [d for d in defs[c.func.id]]
+        if len(ds) == 1 and dotted(ds[0]):
+            return dotted(ds[0])
+    return cn
+
+
+def _confined(m, mname):
+    """(parameters, definitions of every local name, names whose every definition derives from self._path(<parameter>))."""
+    pr = params(m)
+    defs = {}
+    # all bindings of local names, including for / comprehension targets (iter expression is the definition)
+    for n in ast.walk(m):
+        if isinstance(n, ast.Assign):
+            for t in n.targets:
+                for e in ast.walk(t):
+                    if isinstance(e, ast.Name):
+                        defs.setdefault(e.id, []).append(n.value)
+        elif isinstance(n, (ast.For, ast.comprehension)):
+            it = n.iter
+            if isinstance(n.target, (ast.Tuple, ast.List)) and isinstance(it, ast.Call) and call_name(it) == "zip" and len(it.args) == len(n.target.elts):
+                pairs = list(zip(n.target.elts, it.args))      # for a, b in zip(x, y): a <- x, b <- y
+            else:
+                pairs = [(n.target, it)]
+            for tgt, val in pairs:
+                for e in ast.walk(tgt):
+                    if isinstance(e, ast.Name):
+                        defs.setdefault(e.id, []).append(val)
+        elif isinstance(n, ast.withitem) and n.optional_vars is not None:
+            for e in ast.walk(n.optional_vars):
+                if isinstance(e, ast.Name):
+                    defs.setdefault(e.id, []).append(n.context_expr)
+    helper = mname.startswith("_stat")   # private helpers receive an already confined FilePath (call sites checked below)
+    ok_names = set(pr[1:2]) if helper else set()
+
+    def foreign(e):
+        for x in ast.walk(e):
+            if isinstance(x, ast.Call) and call_attr(x) in FOREIGN and call_attr(x) != "join":
+                return src(x)
+            if isinstance(x, ast.Call) and call_name(x) in ("os.path.join", "os.path.abspath", "os.path.normpath", "os.path.realpath"):
+                return src(x)
+            if isinstance(x, ast.Attribute) and src(x) == "self.filesystemRoot":
+                par = getattr(x, "_parent", None)
+                if not (isinstance(par, ast.Call) and call_attr(par) == "segmentsFrom" and any(a is x for a in par.args)):
+                    return "self.filesystemRoot"
+        return None
+
+    def is_path(d):
+        return isinstance(d, ast.Call) and call_name(d) == "self._path" and len(d.args) == 1 and isinstance(d.args[0], ast.Name) and d.args[0].id in pr
+
+    def nm(d):
+        return {x.id for x in ast.walk(d) if isinstance(x, ast.Name)}
+
+    # greatest fixpoint: drop a name as soon as one of its definitions is foreign, mentions a raw parameter, or mentions no confined name
+    cand = set(defs) | ok_names
+    changed = True
+    while changed:
+        changed = False
+        for name in sorted(cand - ok_names):
+            for d in defs.get(name, []):
+                raw = (set(pr[1:]) & nm(d)) - set(defs)
+                if foreign(d) or not (is_path(d) or (nm(d) & cand and not raw)):
+                    cand.discard(name)
+                    changed = True
+                    break
+    # ... restricted to names that are reachable from a self._path(<parameter>) definition (no self-supporting cycles)
+    reach = set(ok_names) | {n_ for n_ in cand if any(is_path(d) for d in defs.get(n_, []))}
+    changed = True
+    while changed:
+        changed = False
+        for n_ in cand - reach:
+            if any(nm(d) & reach for d in defs.get(n_, [])):
+                reach.add(n_)
+                changed = True
+    ok_names = cand & reach
+    return pr, defs, ok_names
+
+
 def _s_sinks(ctx, S):
     nsinks = 0
     for cname in ("FTPAnonymousShell", "FTPShell"):
@@ -257,77 +342,12 @@ def _s_sinks(ctx, S):
                 continue
             qm = f"{QF}.{cname}.{mname}"
             ctx.functions.add(f"{FTPM}:{cname}.{mname}")
-            pr = params(m)
-            defs = {}
-            # all bindings of local names, including for / comprehension targets (iter expression is the definition)
-            for n in ast.walk(m):
-                if isinstance(n, ast.Assign):
-                    for t in n.targets:
-                        for e in ast.walk(t):
-                            if isinstance(e, ast.Name):
-                                defs.setdefault(e.id, []).append(n.value)
-                elif isinstance(n, (ast.For, ast.comprehension)):
-                    it = n.iter
-                    if isinstance(n.target, (ast.Tuple, ast.List)) and isinstance(it, ast.Call) and call_name(it) == "zip" and len(it.args) == len(n.target.elts):
-                        pairs = list(zip(n.target.elts, it.args))      # for a, b in zip(x, y): a <- x, b <- y
-                    else:
-                        pairs = [(n.target, it)]
-                    for tgt, val in pairs:
-                        for e in ast.walk(tgt):
-                            if isinstance(e, ast.Name):
-                                defs.setdefault(e.id, []).append(val)
-                elif isinstance(n, ast.withitem) and n.optional_vars is not None:
-                    for e in ast.walk(n.optional_vars):
-                        if isinstance(e, ast.Name):
-                            defs.setdefault(e.id, []).append(n.context_expr)
-            helper = mname.startswith("_stat")   # private helpers receive an already confined FilePath (call sites checked below)
-            ok_names = set(pr[1:2]) if helper else set()
-
-            def foreign(e):
-                for x in ast.walk(e):
-                    if isinstance(x, ast.Call) and call_attr(x) in FOREIGN and call_attr(x) != "join":
-                        return src(x)
-                    if isinstance(x, ast.Call) and call_name(x) in ("os.path.join", "os.path.abspath", "os.path.normpath", "os.path.realpath"):
-                        return src(x)
-                    if isinstance(x, ast.Attribute) and src(x) == "self.filesystemRoot":
-                        par = getattr(x, "_parent", None)
-                        if not (isinstance(par, ast.Call) and call_attr(par) == "segmentsFrom" and any(a is x for a in par.args)):
-                            return "self.filesystemRoot"
-                return None
-
-            def is_path(d):
-                return isinstance(d, ast.Call) and call_name(d) == "self._path" and len(d.args) == 1 and isinstance(d.args[0], ast.Name) and d.args[0].id in pr
-
-            def nm(d):
-                return {x.id for x in ast.walk(d) if isinstance(x, ast.Name)}
-
-            # greatest fixpoint: drop a name as soon as one of its definitions is foreign, mentions a raw parameter, or mentions no confined name
-            cand = set(defs) | ok_names
-            changed = True
-            while changed:
-                changed = False
-                for name in sorted(cand - ok_names):
-                    for d in defs.get(name, []):
-                        raw = (set(pr[1:]) & nm(d)) - set(defs)
-                        if foreign(d) or not (is_path(d) or (nm(d) & cand and not raw)):
-                            cand.discard(name)
-                            changed = True
-                            break
-            # ... restricted to names that are reachable from a self._path(<parameter>) definition (no self-supporting cycles)
-            reach = set(ok_names) | {n_ for n_ in cand if any(is_path(d) for d in defs.get(n_, []))}
-            changed = True
-            while changed:
-                changed = False
-                for n_ in cand - reach:
-                    if any(nm(d) & reach for d in defs.get(n_, [])):
-                        reach.add(n_)
-                        changed = True
-            ok_names = cand & reach
+            pr, defs, ok_names = _confined(m, mname)
             # names that are both parameter and rebound (path = self._path(path)) are ok only after rebinding: treat as ok if they have a def
             for c in ast.walk(m):
                 if not isinstance(c, ast.Call):
                     continue
-                cn = call_name(c) or ""
+                cn = _callee(c, defs)
                 if cn in OS_SINKS:
                     nsinks += 1
                     pa = [a for a in c.args[:2] if not (isinstance(a, ast.Constant))] if cn in ("os.rename", "os.replace", "os.link", "os.symlink", "shutil.move", "shutil.copy") else c.args[:1]
@@ -365,6 +385,131 @@ def _s_sinks(ctx, S):
                                   "the stat helpers are not given _statNode's own (confined) path")
     ctx.floor("shell/sink-path-from-_path", nsinks, 20, "filesystem sinks in the shells")
 
+# ---- footprints: which paths can a primitive touch, relative to its path argument --------------------------
+SELF, PAIR, DOWN, UPC, UP, NONE = "{arg}", "{src, dst}", "{arg and its descendants}", "{arg and missing ancestors below an existing root}", \
+    "{arg and its ANCESTORS}", "{}"
+OS_FOOTPRINT = {
+    "os.rmdir": SELF, "os.remove": SELF, "os.unlink": SELF, "os.mkdir": SELF, "os.listdir": SELF, "os.stat": SELF, "os.lstat": SELF, "os.chmod": SELF,
+    "os.chown": SELF, "os.utime": SELF, "os.open": SELF, "open": SELF, "os.scandir": SELF, "os.access": SELF, "os.readlink": SELF, "os.truncate": SELF,
+    "os.rename": PAIR, "os.replace": PAIR, "os.link": PAIR, "os.symlink": PAIR, "shutil.copy": PAIR, "shutil.copy2": PAIR, "shutil.copyfile": PAIR, "shutil.move": PAIR,
+    "os.walk": DOWN, "shutil.rmtree": DOWN, "shutil.copytree": DOWN,
+    "os.makedirs": UPC,
+    "os.removedirs": UP, "os.renames": UP,          # prune now-empty parents upwards and do not stop at any root
+}
+OSPATH_QUERIES = {"exists", "lexists", "isdir", "isfile", "islink", "getsize", "getmtime", "getatime", "getctime", "samefile", "ismount"}
+OSPATH_PURE = {"join", "dirname", "basename", "split", "splitext", "abspath", "normpath", "realpath", "relpath", "normcase", "isabs", "commonprefix"}
+FP_FOOTPRINT = {
+    "open": SELF, "create": SELF, "listdir": SELF, "child": SELF, "isdir": SELF, "isfile": SELF, "exists": SELF, "islink": SELF, "restat": SELF, "getsize": SELF,
+    "getPermissions": SELF, "getModificationTime": SELF, "getAccessTime": SELF, "getStatusChangeTime": SELF, "getNumberOfHardLinks": SELF, "getUserID": SELF,
+    "getGroupID": SELF, "getInodeNumber": SELF, "getDevice": SELF, "touch": SELF, "chmod": SELF, "getContent": SELF, "createDirectory": SELF, "changed": NONE,
+    "requireCreate": NONE, "segmentsFrom": NONE, "basename": NONE, "splitext": NONE, "asBytesMode": NONE, "asTextMode": NONE, "isBlockDevice": SELF, "isSocket": SELF,
+    "children": DOWN, "walk": DOWN, "remove": DOWN, "globChildren": DOWN,
+    "moveTo": PAIR, "copyTo": PAIR, "linkTo": PAIR,
+    "makedirs": UPC,
+    "setContent": UP,          # writes a temporary *sibling*, i.e. into the parent directory of its receiver
+}
+ALLOWED_FOOTPRINTS = {SELF, PAIR, DOWN, UPC, NONE}
+UPWARD_NAVIGATION = {"parent", "parents", "sibling", "siblingExtension", "temporarySibling", "dirname", "realpath"}
+FP_MUTATING = {"remove", "makedirs", "createDirectory", "setContent", "moveTo", "copyTo", "touch", "chmod", "linkTo", "open", "create"}
+
+
+def _s_footprints(ctx, S):
+    """A confined *argument* is not enough: the primitive applied to it must not reach above it."""
+    unknown = []
+    used_fp = {}
+    nprim = 0
+    for cname in ("FTPAnonymousShell", "FTPShell"):
+        scls = ctx.cls(FTPM, cname)
+        for mname, m in methods(scls).items():
+            if mname in ("__init__", "_path"):
+                continue
+            qm = f"{QF}.{cname}.{mname}"
+            pr, defs, ok_names = _confined(m, mname)
+
+            def confined_arg(a):
+                return (isinstance(a, ast.Attribute) and a.attr == "path" and isinstance(a.value, ast.Name) and a.value.id in ok_names) or \
+                    (isinstance(a, ast.Name) and a.id in ok_names)
+            for c in ast.walk(m):
+                if not isinstance(c, ast.Call):
+                    continue
+                cn = _callee(c, defs)
+                args = list(c.args) + [k.value for k in c.keywords]
+                is_prim = cn.startswith(("os.", "shutil.")) or cn in OS_FOOTPRINT
+                if is_prim and any(confined_arg(a) for a in args):
+                    nprim += 1
+                    if cn.startswith("os.path."):
+                        tail = cn.split(".")[-1]
+                        if tail not in OSPATH_QUERIES | OSPATH_PURE:
+                            unknown.append(f"{qm}: {src(c)}")
+                        continue
+                    fp = OS_FOOTPRINT.get(cn)
+                    if fp is None:
+                        unknown.append(f"{qm}: {src(c)}")
+                        continue
+                    ctx.check(fp in ALLOWED_FOOTPRINTS, "shell/footprint-within-subtree", ctx.construct(qm, f"{cn}(<confined path>)"),
+                              f"{cn} touches {fp}: applied to a path inside the root it goes on to remove / rename the (empty) parent directories and does not stop "
+                              f"at the shell's root - e.g. removing the last entry under the root removes the root itself and then its parent")
+                elif isinstance(c.func, ast.Attribute) and isinstance(c.func.value, ast.Name) and c.func.value.id in ok_names and (c.func.value.id in defs or c.func.value.id in pr):
+                    attr = c.func.attr
+                    if attr in UPWARD_NAVIGATION:
+                        continue        # reported by shell/no-foreign-path-construction
+                    fp = FP_FOOTPRINT.get(attr)
+                    if fp is None:
+                        if attr not in ("path", "append", "extend", "close", "read", "readline", "seek", "tell", "write"):
+                            unknown.append(f"{qm}: {src(c)}")
+                        continue
+                    nprim += 1
+                    used_fp.setdefault(attr, qm)
+                    ctx.check(fp in ALLOWED_FOOTPRINTS, "shell/footprint-within-subtree", ctx.construct(qm, f"<confined path>.{attr}(...)"),
+                              f"FilePath.{attr} touches {fp}: it writes outside the subtree of the confined path")
+                    if fp == PAIR:
+                        ctx.check(bool(c.args) and isinstance(c.args[0], ast.Name) and c.args[0].id in ok_names, "shell/footprint-within-subtree",
+                                  ctx.construct(qm, f"<confined path>.{attr}(<destination>)"), f"the destination of {attr} is not derived from self._path()")
+                # a mutation applied to something reached by going UP from a confined value:  p.parent().remove(), os.rmdir(os.path.dirname(p.path))
+                if isinstance(c.func, ast.Attribute) and c.func.attr in FP_MUTATING | set(FP_FOOTPRINT) and not isinstance(c.func.value, ast.Name):
+                    inner = [x for x in ast.walk(c.func.value) if isinstance(x, ast.Call) and call_attr(x) in UPWARD_NAVIGATION
+                             and any(isinstance(y, ast.Name) and y.id in ok_names for y in ast.walk(x))]
+                    if inner:
+                        nprim += 1
+                        ctx.violation("shell/footprint-within-subtree", ctx.construct(qm, c),
+                                      f"{src(c)} operates on {src(inner[0])}: the parent / sibling of a confined path may lie outside the root")
+                if is_prim and not cn.startswith("os.path.") and any(isinstance(x, ast.Call) and (call_name(x) in ("os.path.dirname", "dirname") or call_attr(x) in UPWARD_NAVIGATION)
+                                                                      and any(isinstance(y, ast.Name) and y.id in ok_names for y in ast.walk(x)) for a in args for x in ast.walk(a)):
+                    nprim += 1
+                    ctx.violation("shell/footprint-within-subtree", ctx.construct(qm, c), f"{src(c)} is applied to the parent of a confined path, which may lie outside the root")
+    # the FilePath methods the shells rely on: their own primitives must not have an upward footprint either
+    fpmod = ctx.mod(FPM)
+    fpcls = ctx.cls(FPM, "FilePath")
+    seen = set()
+    todo = sorted(used_fp)
+    while todo:
+        name = todo.pop()
+        if name in seen:
+            continue
+        seen.add(name)
+        r = mro_lookup(fpmod, fpcls, name)
+        if not r or not isinstance(r[1], (ast.FunctionDef, ast.AsyncFunctionDef)):
+            continue
+        body = r[1]
+        bad = []
+        for c in ast.walk(body):
+            if not isinstance(c, ast.Call):
+                continue
+            cn = call_name(c) or ""
+            if OS_FOOTPRINT.get(cn) == UP or cn in ("removedirs", "renames"):
+                bad.append(src(c))
+            if isinstance(c.func, ast.Attribute) and isinstance(c.func.value, ast.Name) and c.func.value.id == "self" and name in FP_MUTATING | {"remove", "children", "walk"}:
+                if c.func.attr not in seen and len(seen) < 40:
+                    todo.append(c.func.attr)
+            if isinstance(c.func, ast.Attribute) and c.func.attr in FP_MUTATING and name in FP_MUTATING and \
+                    any(isinstance(x, ast.Call) and call_attr(x) in UPWARD_NAVIGATION and dotted(x.func) and dotted(x.func).startswith("self.") for x in ast.walk(c.func.value)):
+                bad.append(src(c))
+        ctx.check(not bad, "shell/footprint-within-subtree", f"twisted.python.filepath.{r[0].name}.{name}",
+                  f"FilePath.{name}, which the FTP shells apply to confined paths, itself reaches upwards: {bad[:2]}")
+    ctx.floor("shell/footprint-within-subtree", nprim, 15, "primitives applied to confined paths")
+    if unknown:
+        raise AnalysisError("filesystem primitive with unknown footprint applied to a confined path: " + "; ".join(unknown[:3]))
+
 
 def _s_body(ctx, S):
     why = "path normalisation / containment is performed by this body on every command; a memoising or wrapping decorator can hand back a path computed for another call"
@@ -374,7 +519,7 @@ def _s_body(ctx, S):
 
 def check(ctx):
     run_sections(ctx, [("protocol", _s_protocol), ("working-directory", _s_cwd), ("toSegments", _s_tosegments), ("invalid-path", _s_invalid_path), ("_path", _s_path),
-                       ("descendant", _s_descendant), ("_path-only", _s_path_only), ("shell-sinks", _s_sinks), ("body-entered", _s_body)])
+                       ("descendant", _s_descendant), ("_path-only", _s_path_only), ("shell-sinks", _s_sinks), ("shell-footprints", _s_footprints), ("body-entered", _s_body)])
 
 
 _F = FTPM
@@ -400,6 +545,13 @@ MUTANTS = [
     Mutant("descendant-joins-tail", FPM, "        path: AbstractFilePath[OtherAnyStr] = self  # type:ignore[assignment]\n        for name in segments:\n            path = path.child(name)\n        return path",
            "        path: AbstractFilePath[OtherAnyStr] = self  # type:ignore[assignment]\n        for name in segments[:1]:\n            path = path.child(name)\n        return path.preauthChild(\"/\".join(segments[1:])) if segments[1:] else path",
            expect_rule="shell/descendant-is-child-per-segment"),
+    Mutant("rmd-prunes-empty-parents", _F, "            os.rmdir(p.path)\n", "            os.removedirs(p.path)\n", expect_rule="shell/footprint-within-subtree"),
+    Mutant("rename-prunes-and-creates-parents", _F, "            os.rename(fp.path, tp.path)", "            os.renames(fp.path, tp.path)", expect_rule="shell/footprint-within-subtree"),
+    Mutant("rmd-also-removes-parent-when-empty", _F, "        try:\n            os.rmdir(p.path)\n        except OSError as e:",
+           "        try:\n            os.rmdir(p.path)\n            if not p.parent().listdir():\n                p.parent().remove()\n        except OSError as e:", expect_rule="shell/"),
+    Mutant("dele-through-dirname", _F, "        try:\n            p.remove()\n        except OSError as e:", "        try:\n            p.remove()\n            os.rmdir(os.path.dirname(p.path))\n        except OSError as e:",
+           expect_rule="shell/"),
+    Mutant("stor-through-setContent-sibling", _F, "            fObj = p.open(\"w\")\n", "            p.setContent(b\"\")\n            fObj = p.open(\"w\")\n", expect_rule="shell/footprint-within-subtree"),
     Mutant("list-stats-from-root", _F, "            fileEntries = [filePath.child(p) for p in entries]", "            fileEntries = [self.filesystemRoot.preauthChild(os.path.join(*path, p)) for p in entries]", expect_rule="shell/"),
 ]
 SILENT = [
@@ -407,5 +559,8 @@ SILENT = [
            "            target = toSegments(self.workingDirectory, path)\n        except InvalidPath:\n            return defer.fail(FileNotFoundError(path))\n        return self.shell.removeFile(target)"),
     Silent("dot-test-as-membership", _F, "        if s == \".\" or s == \"\":\n            continue\n        elif s == \"..\":", "        if s in (\".\", \"\"):\n            continue\n        elif s == \"..\":"),
     Silent("shell-local-renamed", _F, "    def removeFile(self, path):\n        p = self._path(path)\n        if p.isdir():", "    def removeFile(self, path):\n        target = self._path(path)\n        p = target\n        if p.isdir():"),
+    Silent("rmdir-through-local-alias", _F, "        try:\n            os.rmdir(p.path)\n        except OSError as e:", "        rmdir = os.rmdir\n        try:\n            rmdir(p.path)\n        except OSError as e:"),
+    Silent("dele-with-os-remove", _F, "        try:\n            p.remove()\n        except OSError as e:", "        try:\n            os.remove(p.path)\n        except OSError as e:"),
+    Silent("mkd-with-os-makedirs", _F, "        try:\n            p.makedirs()\n        except OSError as e:", "        try:\n            os.makedirs(p.path)\n        except OSError as e:"),
     Silent("cwd-copied-with-list", _F, "        segs = cwd[:]\n", "        segs = list(cwd)\n"),
 ]
